@@ -626,6 +626,14 @@ def c13_oracle(ctx, cases, impl, model):
             if r.get("A") != exp_a:
                 fails.append(dict(describe(c.line, a), what="rendition lookup returns %s, the references are %s" % (r.get("A"), exp_a), law="lookup",
                                   cc_none_vs_group_named_none=any(v.get("cc") == "NONE" for v in variants) and ("CLOSED-CAPTIONS", "NONE") in media))
+            # the three stream selectors: variants with an AUDIO group / with a VIDEO group / with no group reference at all
+            lst = lambda ix: "[" + ",".join(str(i) for i in ix) + "]"
+            exp_s = "/".join([
+                lst([i for i, v in enumerate(variants) if not v.get("iframe") and v.get("audio") is not None]),
+                lst([i for i, v in enumerate(variants) if v.get("video") is not None]),
+                lst([i for i, v in enumerate(variants) if v.get("video") is None and (v.get("iframe") or (v.get("audio") is None and v.get("subs") is None and v.get("cc") is None))])])
+            if r.get("S") != exp_s:
+                fails.append(dict(describe(c.line, a), what="audio_streams / video_streams / unassociated_streams select %s, the references say %s" % (r.get("S"), exp_s), law="stream-selectors"))
     return fails
 
 
@@ -635,11 +643,11 @@ def _k5(f):
 
 
 PROPS["C13"] = {
-    "build": c13_build, "gate": {"status", "obs", "A"}, "oracle": c13_oracle,
+    "build": c13_build, "gate": {"status", "obs", "A", "S"}, "oracle": c13_oracle,
     "nontrivial": lambda c, a: bool(c.meta.get("cfg") and (c.meta["cfg"]["variants"] or c.meta["cfg"].get("sd"))) or (c.group in ("generated", "corpus") and a.startswith("ok")),
     "rule": "exhaustive reduced scope (every subset of 4 renditions x every {absent,g1[,NONE]} assignment of variant 1, {absent,g1,g2,NONE}x{absent,g2} of variant 2, i-frame video {absent,g1}, both tag orders), all triples of session data over 2 ids x 3 languages, random configurations over the full scope of the property (4 types x 2 ids, <= 2 variants + i-frame, shuffled tags, a group literally named NONE), generated larger masters (consistent and inconsistent); non-trivial = configuration with at least one variant or session-data tag (distinct texts)",
     "exhaustive": False,
-    "explanation": "theorems: validateVariants_iff, validateSessionData_iff, build_ok_iff, parseMaster_consistent, assembleMaster_ok_iff, associatedWith_iff, isAssociated_iff_partial (+ isAssociated_counterexample for K5); oracle: acceptance of every rendered configuration is compared with an independent Python statement of the rule, every accepted value is re-checked for consistency and its rendition lookup compared with the references",
+    "explanation": "theorems: validateVariants_iff, validateSessionData_iff, build_ok_iff, parseMaster_consistent, assembleMaster_ok_iff, associatedWith_iff, isAssociated_iff_partial (+ isAssociated_counterexample for K5); oracle: acceptance of every rendered configuration is compared with an independent Python statement of the rule, every accepted value is re-checked for consistency, its rendition lookup and the three stream selectors (audio_streams, video_streams, unassociated_streams) are compared with the references",
     "assumptions": ["the builder path of the same rule (MasterPlaylistBuilder::build) is covered by the model theorem build_ok_iff; its implementation side is exercised by C20's builder scripts"],
 }
 
